@@ -132,6 +132,17 @@ def licensed_tree(rng, lang, depth, tok_kw):
     return grow(maybe_unary(t), depth)
 
 
+def repeat_tokens(rng, t):
+    """make a later leaf carry a token equal (not identical) to an earlier leaf's token, as in a
+    sentence that repeats a word with the same annotation"""
+    leaves = t.leaves
+    if len(leaves) >= 2:
+        i = rng.randrange(len(leaves) - 1)
+        j = rng.randrange(i + 1, len(leaves))
+        leaves[j].children[0] = Token(**dict(leaves[i].children[0]))
+    return t
+
+
 def placeholder():
     return Tree.make_terminal('FAILED', Category.parse('NP'))
 
